@@ -107,7 +107,7 @@ func New(t ast.Task, root string, vars map[string]string) (Task, error) {
 				globDeps = append(globDeps, dep.Literal())
 			} else {
 				// We have something like "file.go"
-				fileDeps = append(fileDeps, filepath.Join(root, dep.Literal()))
+				fileDeps = append(fileDeps, resolvePath(root, dep.Literal()))
 			}
 		case dep.Type() == ast.NodeIdent:
 			// Ident means it depends on another task
@@ -134,7 +134,7 @@ func New(t ast.Task, root string, vars map[string]string) (Task, error) {
 				globOutputs = append(globOutputs, out.Literal())
 			} else {
 				// We have something like "file.go"
-				fileOutputs = append(fileOutputs, filepath.Join(root, out.Literal()))
+				fileOutputs = append(fileOutputs, resolvePath(root, out.Literal()))
 			}
 		case out.Type() == ast.NodeIdent:
 			// Ident means it outputs something named by global scope
@@ -172,4 +172,14 @@ func expandVars(command string, vars map[string]string) (string, error) {
 	}
 
 	return out.String(), nil
+}
+
+// resolvePath returns the path a file dependency or output written in the spokfile names:
+// a relative one is relative to root (the directory of the spokfile), an absolute one is
+// that path itself, wherever the spokfile lives.
+func resolvePath(root, path string) string {
+	if filepath.IsAbs(path) {
+		return filepath.Clean(path)
+	}
+	return filepath.Join(root, path)
 }
